@@ -98,10 +98,15 @@ fn gen_decl(c: &mut Choices<'_>, idx: usize, comments: bool) -> (String, Option<
     }
     s.push_str(*c.pick(VIS));
     s.push_str("use ");
-    let root = *c.pick(ROOTS);
-    s.push_str(root);
-    s.push_str("::");
-    s.push_str(&tree(c, 3));
+    if c.chance(1, 12) {
+        // an alias on a keyword segment
+        s.push_str(*c.pick(&["crate as root_mod", "super as up", "super::super as gp", "crate as _", "super::{self as parent, HashMap}"]));
+    } else {
+        let root = *c.pick(ROOTS);
+        s.push_str(root);
+        s.push_str("::");
+        s.push_str(&tree(c, 3));
+    }
     s.push(';');
     if comments && payload.is_none() && c.chance(1, 10) {
         let p = format!("imp{idx}");
@@ -129,10 +134,13 @@ fn known_class(opts: &Opts, runs: &[Vec<LeafKey>], src: &str) -> Option<&'static
     let gran = opt(opts, "imports_granularity").unwrap_or("Preserve");
     for run in runs {
         // D11: merging into one tree compares a shared segment "except alias" and keeps one alias
-        if gran == "One" {
+        // (under Module / Crate the same happens when the aliased path is a single segment, i.e.
+        // the alias sits on the segment every tree of the merge shares)
+        if gran == "One" || gran == "Module" || gran == "Crate" {
             for (i, a) in run.iter().enumerate() {
                 for (j, b) in run.iter().enumerate() {
-                    if i != j && a.3.is_some() && ((b.2 == a.2 && a.3 != b.3) || b.2.starts_with(&format!("{}::", a.2))) {
+                    let single = !a.2.trim_start_matches("::").contains("::");
+                    if i != j && a.3.is_some() && (gran == "One" || single) && ((b.2 == a.2 && a.3 != b.3) || b.2.starts_with(&format!("{}::", a.2))) {
                         return Some("one-merge-loses-alias");
                     }
                 }
